@@ -16,6 +16,7 @@ import PqModel.Reset
     `f:F<n>|C:<offset>:<ndefs>`         flush that failed after n columns flushed their page / committed
     `c:F<n>|C:<offset>:<ndefs>:<footerOk>:<offset2>`   close
     `k:<hexkey>:<hexvalue>`             SetKeyValueMetadata
+    `s:<n>`                             SortingWriter sorts and writes a chunk whose last row has n values
     `r`                                 Reset
 * observation: `cols=<col>;… rows= off= md= sort= rgs= cis= ois= def= fmd=`,
   col = `path|chunkpath|encs|chunkencs|type|enc|sw|onplain|buf|plain|dict|held|pages|filter|rows|values|tcs|locs|bloomlen|hist` -/
@@ -95,6 +96,7 @@ def parseOp? (s : String) : Option Op :=
     match hexStr? k, hexStr? v with
     | some k, some v => some (.setKV k v)
     | _, _ => none
+  | ["s", n] => (parseNat? n).map (fun n => .sortChunk (List.replicate n 1))
   | ["r"] => some .reset
   | _ => none
 
